@@ -127,15 +127,20 @@ def histCase (fileEvs body : List ScEv) : String × String :=
 
 /-- the same with parameters of the function definition: named ones are objects of the body's
 outermost scope (6.2.1p4), unnamed ones (accepted as an extension) declare nothing -/
-def histCaseP (fileEvs : List ScEv) (params : List (Option String)) (body : List ScEv) : String × String :=
+def histCaseP (fileEvs : List ScEv) (params : List (Option String)) (body : List ScEv)
+    (head : List String := ["void", "f"]) : String × String :=
   let pre := renderHist fileEvs 0
   let pobjs : List ScEv := params.filterMap fun p => p.map ScEv.object
   let all := fileEvs ++ [.openBlock] ++ pobjs ++ body
   let ptoks : List String :=
     if params.isEmpty then ["void"]
     else ((params.map fun p => match p with | some n => ["int", n] | none => ["int"]).intersperse [","]).flatten
-  (" ".intercalate (pre ++ ["void", "f", "("] ++ ptoks ++ [")", "{"] ++ renderHist body 100 ++ ["}"]),
+  (" ".intercalate (pre ++ head ++ ["("] ++ ptoks ++ [")", "{"] ++ renderHist body 100 ++ ["}"]),
    " ".intercalate (expectedProbes [] all))
+
+/-- how the function definition that holds the history begins: with declaration specifiers, or in
+the old style without any (implicit `int`) - the parameters are objects of the body either way -/
+def funcHeads : List (List String) := [["void", "f"], ["f"], ["static", "int", "f"], ["void", "f"], ["long", "*", "f"]]
 
 /-! ## the open finding F-c04-forinit-leak, as a semantics of its own
 
